@@ -75,7 +75,7 @@ CLAIMED = {
                 "with theorems for every environment, type and value tree: members_inherited_first, marshal_names "
                 "(every element written for an accessor has its name and form-rule namespace, at any depth), "
                 "object_children_in_schema_order, optional_none_omitted, required_nillable_none_is_nil, "
-                "xsi_type_iff_derived, array_type_and_length. Tied to suds by a whole-tree correspondence: the model, "
+                "xsi_type_iff_derived, object_attributes, array_type_and_length, encoded_every_element_typed (every element at every depth carries xsi:type under rpc/encoded), wrapped/rpc/bare_request_shape. Tied to suds by a whole-tree correspondence: the model, "
                 "an independent Python reference translator and the bytes suds hands to the transport (read back by "
                 "expat) are compared on every generated (interface, operation, argument tree, dict/object mode).",
         "design_ref": "DESIGN.md section 6, C01",
